@@ -249,6 +249,11 @@ def _replay(prop, path):
         viol = json.load(fh)
     d = viol.get("detail", {})
     beh = d.get("behaviour")
+    if beh is None and "run" not in d and str(d.get("field", "")).startswith("queue with"):
+        # one of the fixed far-end cases (events / ties at Duration::MAX): run them again
+        out = vlib.run_vh_parallel([["alloc", "maxtime"]])[0]
+        log(json.dumps(out)[:2000])
+        return 1 if out.get("crash") or out.get("mismatch_count") else 0
     if beh is None and "run" in d:
         # a rejected recorded run: re-validate it as is
         p = os.path.join(wd, "run.ndjson")
